@@ -70,6 +70,8 @@ structure Row where
   featChecked : Bool
   /-- `CpuFeatures::X86` ids of the form's `ext` list -/
   dbExt : List Nat
+  /-- architectural feature hierarchy `(a, b)`: a CPU that has `a` has `b` (AVX512_F ⇒ AVX2 ⇒ AVX; Intel SDM vol. 1, 15.1) -/
+  featImplies : List (Nat × Nat)
   implOps : List ImplOp
   implFlagsR : Nat
   implFlagsW : Nat
@@ -92,11 +94,11 @@ def accessOk (d : DbOp) (i : ImplOp) : Bool :=
   (!(d.kind == 1 && d.gp && d.read) || hasBits i.rmask (byteMask d.lo d.width)) &&
   (!(d.kind == 1 && d.gp && d.write) || hasBits i.wmask (byteMask d.lo d.width))
 
-/-- zero extension of general-purpose destinations in 64-bit mode: flagged (and the whole register covered) exactly for
-    32-bit writes that start at bit 0; never claimed for 8/16-bit writes -/
+/-- zero extension of general-purpose destinations in 64-bit mode: a 32-bit write changes the whole 64-bit register, so written ∪
+    zero-extended bytes must be all eight; an 8/16-bit write must not claim any zero extension -/
 def zextOk (mode64 : Bool) (d : DbOp) (i : ImplOp) : Bool :=
   if d.kind == 1 && d.gp && d.write && mode64 then
-    if d.size == 4 then hasBits i.flags fZExt && hasBits (Nat.lor i.wmask i.emask) 0xFF
+    if d.size == 4 then hasBits (Nat.lor i.wmask i.emask) 0xFF
     else if d.size < 4 then !hasBits i.flags fZExt && i.emask == 0
     else i.emask == 0
   else true
@@ -105,35 +107,49 @@ def zextOk (mode64 : Bool) (d : DbOp) (i : ImplOp) : Bool :=
 def runOk (d : DbOp) (i : ImplOp) : Bool :=
   (d.runLen < 2 || i.clc == d.runLen) && (d.follower == 0 || hasBits i.flags fConsecutive)
 
-/-- an operand reported as replaceable by memory of `rmSize` bytes is replaceable in the database -/
-def regMemOk (d : DbOp) (i : ImplOp) : Bool :=
-  if d.kind == 1 && d.rmChecked && hasBits i.flags fRegMem then i.rmSize != 0 && d.memAlt.contains i.rmSize else true
+/-- an operand reported as replaceable by memory of `rmSize` bytes is replaceable in the database.
+    `lenient` excludes exactly the class of the open finding C12-F1 (register-or-memory information is kept per instruction
+    id and applied to every form): the claim is made although the database has *no* memory form at that position. -/
+def regMemOk (lenient : Bool) (d : DbOp) (i : ImplOp) : Bool :=
+  if d.kind == 1 && d.rmChecked && hasBits i.flags fRegMem then
+    if d.memAlt.isEmpty then lenient
+    -- rm_size 0 = no size given (x87, bnd): then some memory form must exist at least
+    else i.rmSize == 0 || d.memAlt.contains i.rmSize
+  else true
 
-def opOk (mode64 : Bool) (d : DbOp) (i : ImplOp) : Bool :=
-  if d.kind == 0 then true else accessOk d i && zextOk mode64 d i && runOk d i && regMemOk d i
+def opOk (lenient mode64 : Bool) (d : DbOp) (i : ImplOp) : Bool :=
+  if d.kind == 0 then true else accessOk d i && zextOk mode64 d i && runOk d i && regMemOk lenient d i
 
-def opsOk (mode64 : Bool) : List DbOp → List ImplOp → Bool
+def opsOk (lenient mode64 : Bool) : List DbOp → List ImplOp → Bool
   | [], [] => true
-  | d :: ds, i :: is => opOk mode64 d i && opsOk mode64 ds is
+  | d :: ds, i :: is => opOk lenient mode64 d i && opsOk lenient mode64 ds is
   | _, _ => false
 
 def flagsOk (r : Row) : Bool := hasBits r.implFlagsR r.dbFlagsR && hasBits r.implFlagsW r.dbFlagsW
 
-def featOk (r : Row) : Bool := !r.featChecked || r.dbExt.all (fun e => r.implFeat.contains e)
+/-- a CPU with the reported features has feature `e` -/
+def provides (r : Row) (e : Nat) : Bool := r.implFeat.contains e || r.featImplies.any (fun p => p.2 == e && r.implFeat.contains p.1)
+def featOk (r : Row) : Bool := !r.featChecked || r.dbExt.all (provides r)
 
-/-- the monitor of C12 on one instantiated form -/
-def rowOk (r : Row) : Bool := opsOk r.mode64 r.dbOps r.implOps && flagsOk r && featOk r
+def rowOkWith (lenient : Bool) (r : Row) : Bool := opsOk lenient r.mode64 r.dbOps r.implOps && flagsOk r && featOk r
 
-/-- which clause fails first (for diagnostics printed by the driver) -/
+/-- the monitor of C12 on one instantiated form (full strength) -/
+def rowOk (r : Row) : Bool := rowOkWith false r
+/-- the monitor with the class of finding C12-F1 excluded -/
+def rowOkPartial (r : Row) : Bool := rowOkWith true r
+
+/-- which clause fails first (for diagnostics printed by the driver; also the stable class key of a violation) -/
 def rowWhy (r : Row) : String :=
   if !flagsOk r then "status-flags" else
   if !featOk r then "features" else
   if r.dbOps.length != r.implOps.length then "operand-count" else
   let bad := (r.dbOps.zip r.implOps).zipIdx.filterMap fun ((d, i), n) =>
-    if opOk r.mode64 d i then none else
-    some (if !accessOk d i then s!"op{n}:access" else if !zextOk r.mode64 d i then s!"op{n}:zext"
-          else if !runOk d i then s!"op{n}:consecutive" else s!"op{n}:regmem")
-  match bad with
+    if opOk false r.mode64 d i then none else
+    some (if !accessOk d i then s!"access op{n}" else if !zextOk r.mode64 d i then s!"zext op{n}"
+          else if !runOk d i then s!"consecutive op{n}"
+          else if d.memAlt.isEmpty then s!"regmem-no-memory-form op{n}" else s!"regmem-wrong-size op{n}")
+  -- a failure outside the finding's class is reported first
+  match bad.filter (fun w => !w.startsWith "regmem-no-memory-form") ++ bad with
   | [] => "ok"
   | w :: _ => w
 
@@ -141,15 +157,16 @@ def rowWhy (r : Row) : String :=
 example : byteMask 0 32 = 0xF := by decide
 example : byteMask 8 8 = 0x2 := by decide
 example : byteMask 0 4096 = 0xFFFFFFFFFFFFFFFF := by decide
-example : opOk true ⟨1, true, 4, true, true, 0, 32, 0, 0, true, [4]⟩ ⟨0x17, 255, 4, 0, 0xF, 0xF, 0xF0⟩ = true := by decide
+example : opOk false true ⟨1, true, 4, true, true, 0, 32, 0, 0, true, [4]⟩ ⟨0x17, 255, 4, 0, 0xF, 0xF, 0xF0⟩ = true := by decide
 -- dropping the read flag, the zero extension, or claiming memory of a size the database has not, is rejected
-example : opOk true ⟨1, true, 4, true, true, 0, 32, 0, 0, true, [4]⟩ ⟨0x16, 255, 4, 0, 0xF, 0xF, 0xF0⟩ = false := by decide
-example : opOk true ⟨1, true, 4, true, true, 0, 32, 0, 0, true, [4]⟩ ⟨0x07, 255, 4, 0, 0xF, 0xF, 0⟩ = false := by decide
-example : opOk true ⟨1, true, 4, true, true, 0, 32, 0, 0, true, [4]⟩ ⟨0x17, 255, 8, 0, 0xF, 0xF, 0xF0⟩ = false := by decide
+example : opOk false true ⟨1, true, 4, true, true, 0, 32, 0, 0, true, [4]⟩ ⟨0x16, 255, 4, 0, 0xF, 0xF, 0xF0⟩ = false := by decide
+example : opOk false true ⟨1, true, 4, true, true, 0, 32, 0, 0, true, [4]⟩ ⟨0x07, 255, 4, 0, 0xF, 0xF, 0⟩ = false := by decide
+example : opOk false true ⟨1, true, 4, true, true, 0, 32, 0, 0, true, [4]⟩ ⟨0x07, 255, 4, 0, 0xF, 0xFF, 0⟩ = true := by decide
+example : opOk false true ⟨1, true, 4, true, true, 0, 32, 0, 0, true, [4]⟩ ⟨0x17, 255, 8, 0, 0xF, 0xF, 0xF0⟩ = false := by decide
 -- a 16-bit destination must not claim zero extension
-example : opOk true ⟨1, true, 2, false, true, 0, 16, 0, 0, true, []⟩ ⟨0x12, 255, 0, 0, 0, 0x3, 0xFC⟩ = false := by decide
+example : opOk false true ⟨1, true, 2, false, true, 0, 16, 0, 0, true, []⟩ ⟨0x12, 255, 0, 0, 0, 0x3, 0xFC⟩ = false := by decide
 -- mask pair `k, k+1`: lead count 2 on the leader, kConsecutive on the follower
-example : opOk true ⟨1, false, 0, false, true, 0, 0, 0, 2, true, []⟩ ⟨0x2, 255, 0, 2, 0, 0xFF, 0⟩ = true := by decide
-example : opOk true ⟨1, false, 0, false, true, 0, 0, 0, 2, true, []⟩ ⟨0x2, 255, 0, 0, 0, 0xFF, 0⟩ = false := by decide
+example : opOk false true ⟨1, false, 0, false, true, 0, 0, 0, 2, true, []⟩ ⟨0x2, 255, 0, 2, 0, 0xFF, 0⟩ = true := by decide
+example : opOk false true ⟨1, false, 0, false, true, 0, 0, 0, 2, true, []⟩ ⟨0x2, 255, 0, 0, 0, 0xFF, 0⟩ = false := by decide
 
 end Spec.RWCover
